@@ -513,6 +513,11 @@ class EvolvableCNN(EvolvableModule):
                 kernel_size,
             )
         else:
+            # NOTE: Layer mutations may be disabled (e.g. for the encoders of networks),
+            # in which case falling back to `add_layer` would silently do nothing
+            if "add_layer" not in self.mutation_methods:
+                return self.add_channel()
+
             return self.add_layer()
 
         return {"hidden_layer": hidden_layer, "kernel_size": new_kernel_size}
